@@ -13,7 +13,7 @@ EXTENDS Integers, Sequences, FiniteSets
 
 Abs(x) == IF x < 0 THEN -x ELSE x
 TDiv(a, b) == IF a >= 0 THEN a \div b ELSE -((-a) \div b)          \* C division (b > 0)
-Range(mult) == CASE mult = 1 -> 256 [] mult = 2 -> 128 [] mult = 3 -> 86 [] OTHER -> 64
+DbRange(mult) == CASE mult = 1 -> 256 [] mult = 2 -> 128 [] mult = 3 -> 86 [] OTHER -> 64
 
 \* neighbours of post i (1-based index into X, i >= 3) among the posts before it in list order
 Lo(X, i) == LET c == { j \in 1..(i - 1) : X[j] < X[i] } IN CHOOSE j \in c : \A k \in c : X[k] <= X[j]
@@ -41,7 +41,7 @@ UnwrapFrom(X, Y, U, raw, i, q) ==
            Y2 == Append(Y, r.y)  U2 == Append(U1, r.used)
        \* (the test forces Y2 and U2 here: TLC passes operator arguments unevaluated, and a chain of 60 pending Appends is re-walked at every use)
        IN IF Len(Y2) = Len(U2) THEN UnwrapFrom(X, Y2, U2, raw, i + 1, q) ELSE [Y |-> Y2, U |-> U2]
-Unwrap(X, raw, mult) == UnwrapFrom(X, <<raw[1], raw[2]>>, <<TRUE, TRUE>>, raw, 3, Range(mult))
+Unwrap(X, raw, mult) == UnwrapFrom(X, <<raw[1], raw[2]>>, <<TRUE, TRUE>>, raw, 3, DbRange(mult))
 
 \* the line from (x0,y0) to (x1,y1): value at bin x (x0 <= x < x1), the integer DDA of render_line
 LineY(x0, x1, y0, y1, x) ==
